@@ -214,14 +214,31 @@ def gen_ops(r, case, base):
                 ops.append(["periodic", r.choice(DTS)])
         else:
             exit_mode = r.choice(["disable", "disable", "teleop", "robot_exit" if not ended and r.random() < 0.5 else "disable"])
-            ops.append(["run", dash, choice, r.choice(DTS), r.choice([0, 1, 2, 3, 4, 6]),
-                        r.choice([20000, 20000, 5000, 10000]), exit_mode])
+            nt = r.choice([0, 1, 2, 3, 4, 6])
+            ops.append(["run", dash, choice, r.choice(DTS), nt,
+                        r.choice([20000, 20000, 5000, 10000]), exit_mode, gen_mid_disable(r, nt)])
             if exit_mode == "robot_exit":
                 ended = True
         if r.random() < 0.06 and not ended:
             ops.append(["end"])
             ended = True
     return ops
+
+
+def gen_mid_disable(r, nticks):
+    """disable() called on the selector while run() is still going round: None, or [who, k] -- `who` is
+    "hook" (an iter_fn hook of loop pass k calls it) or "thread" (another thread calls it while the loop sleeps
+    in delay.wait() after pass k); k < nticks - 1 leaves the driver station in autonomous+enabled for the
+    remaining passes."""
+    if nticks == 0 or r.random() >= 0.35:
+        return None
+    k = r.randrange(nticks - 1) if nticks > 1 and r.random() < 0.8 else nticks - 1
+    return [r.choice(["hook", "hook", "thread"]), k]
+
+
+def mid_disable(o):
+    """the [who, k] element of a generated "run" op, if any"""
+    return o[7] if len(o) > 7 and isinstance(o[7], list) else None
 
 
 def gen_case(r, idx, base):
@@ -253,6 +270,14 @@ EDGE_CASES = [
      [["periodic", 0]]),
     (False, [("alpha", None, [("A", "one", None, True, False)])],
      [["end"], ["run", None, None, 0, 3, 20000, "disable"]]),
+    # disable() called while run() is still going round, the driver station staying in autonomous+enabled
+    (False, [("alpha", None, [("A", "one", None, True, False), ("B", "two", None, None, False)])],
+     [["run", None, None, 0, 4, 20000, "disable", ["hook", 1]], ["run", "two", None, 1000, 2, 20000, "teleop"]]),
+    (False, [("alpha", None, [("A", "one", None, True, False)])],
+     [["run", None, None, 0, 3, 20000, "disable", ["thread", 0]], ["run", None, None, 0, 1, 20000, "disable", ["hook", 0]],
+      ["start", None, None, 0], ["periodic", 20000], ["disable"]]),
+    (True, [("alpha", None, [("A", "one", None, None, False)])],
+     [["run", "one", None, 0, 6, 5000, "robot_exit", ["hook", 2]]]),
 ]
 
 
@@ -484,8 +509,10 @@ class Driver:
         SD.updateValues()
         SD.updateValues()
 
-    def run_period(self, s, nticks, period_us, exit_mode, exited):
-        """run() in a worker thread; returns (t0, wakes, extra_end_op, problem)."""
+    def run_period(self, s, nticks, period_us, exit_mode, exited, dis=None):
+        """run() in a worker thread; returns (t0, wakes, extra_end_op, problem).
+        dis = [who, k]: disable() is called on the selector during loop pass k, by the iter_fn hook of that
+        pass ("hook") or by this thread while the loop sleeps in delay.wait() after it ("thread")."""
         threading = self.threading
         DS = self.DS
         DS.setAutonomous(True)
@@ -497,8 +524,13 @@ class Driver:
         seen = []
         err = []
 
+        dis_at = []
+
         def hook():
             seen.append(self.clock())
+            if dis and dis[0] == "hook" and len(seen) == dis[1] + 1:
+                dis_at.append(dis[1])
+                s.disable()
             sem.release()
 
         def body():
@@ -519,6 +551,11 @@ class Driver:
             if not sem.acquire(timeout=patience):
                 problem = "run() did not reach iteration %d" % k
                 break
+            if dis and dis[0] == "thread" and k == dis[1]:
+                # the worker has finished pass k and is on its way into delay.wait(): no callback of its own
+                # can be in flight until the next stepTiming
+                dis_at.append(k)
+                s.disable()
             if k == nticks - 1:
                 if exit_mode == "robot_exit":
                     s.endCompetition()
@@ -543,9 +580,9 @@ class Driver:
             th.join(2)
         if err:
             problem = "run() raised %s" % type(err[0]).__name__
-        wakes = [[w, True] for w in seen]
+        wakes = [[w, True, k in dis_at] for k, w in enumerate(seen)]
         if not ended and not exited:
-            wakes.append([self.clock(), False])
+            wakes.append([self.clock(), False, False])
         DS.setEnabled(False)
         DS.notifyNewData()
         return t0, wakes, ended, problem
@@ -621,7 +658,7 @@ class Driver:
                         st["ended"] = True
                     elif kind == "run":
                         self.set_sel(o[1], o[2], st)
-                        t0, wakes, ended, problem = self.run_period(s, o[4], o[5], o[6], st["ended"])
+                        t0, wakes, ended, problem = self.run_period(s, o[4], o[5], o[6], st["ended"], mid_disable(o))
                         obs["mops"].append(["run", o[1], o[2], t0, wakes])
                         if ended:
                             obs["mops"].append(["end"])
@@ -746,7 +783,8 @@ def ops_term(mops):
             out.append("EndCompetition")
         elif o[0] == "run":
             out.append("RunPeriod %s %s %s" % (sel_term(o[1], o[2]), coq_Z(o[3]),
-                                               coq_list(["(%s, %s)" % (coq_Z(w), coq_bool(e)) for w, e in o[4]])))
+                                               coq_list(["(%s, %s, %s)" % (coq_Z(w[0]), coq_bool(w[1]), coq_bool(len(w) > 2 and w[2]))
+                                                         for w in o[4]])))
     return coq_list(out)
 
 
@@ -952,12 +990,20 @@ def oracle_lifecycle(obs, modes):
             m = chosen(o[1], o[2])
             if m:
                 exp.append((0, m, per, 0))
+                closed = False
                 if not exited:
-                    for w, en in o[4]:
-                        if not en:
+                    for wk in o[4]:
+                        if not wk[1]:
                             break
-                        exp.append((1, m, per, w - o[3]))
-                exp.append((2, m, per, 0))
+                        if not closed:
+                            exp.append((1, m, per, wk[0] - o[3]))
+                        if len(wk) > 2 and wk[2] and not closed:
+                            # disable() was called during this pass of the loop: on_disable now, and nothing after
+                            # it, however long the driver station stays in autonomous+enabled
+                            exp.append((2, m, per, 0))
+                            closed = True
+                if not closed:
+                    exp.append((2, m, per, 0))
     got = [(k, i) for k, i, t in obs["events"]]
     want = [(k, i) for k, i, p, _ in exp]
     if got != want:
@@ -968,6 +1014,8 @@ def oracle_lifecycle(obs, modes):
         names = ["on_enable", "on_iteration", "on_disable", "constructor"]
         g = "%s of %s" % (names[got[n][0]], got[n][1][1]) if n < len(got) else "nothing"
         w = "%s of %s" % (names[want[n][0]], want[n][1][1]) if n < len(want) else "nothing"
+        if n > 0 and n < len(got) and got[n - 1][0] == 2 and got[n][0] != 0:
+            w += " (the mode's on_disable has been delivered: nothing may follow it in this period)"
         fp = "lifecycle:%s-instead-of-%s" % (names[got[n][0]] if n < len(got) else "nothing",
                                               names[want[n][0]] if n < len(want) else "nothing")
         if n < len(got) and n < len(want) and got[n][0] == want[n][0]:
@@ -1121,6 +1169,10 @@ def run(ctx):
         ctx.count("modes=%s" % (len(o["modes"]) if len(o["modes"]) < 4 else ">=4"))
         for op in o["mops"]:
             ctx.count("op=%s" % op[0])
+            if op[0] == "run" and any(len(w) > 2 and w[2] for w in op[4]):
+                k = [len(w) > 2 and w[2] for w in op[4]].index(True)
+                later = sum(1 for w in op[4][k + 1:] if w[1])
+                ctx.count("run:disable()-during-loop,%s" % ("loop-goes-on" if later else "last-pass"))
         if o["attrerr"]:
             ctx.count("AttributeError")
         if any(k != "None" and "/" in k for k in o["options"]):
@@ -1145,7 +1197,8 @@ def run(ctx):
                 "raising constructors, missing package / missing sub-package / failing __init__, namespace and dotted "
                 "packages, classes in __init__.py, hidden/.txt/sub-package decoys), half of them repaired to be "
                 "fault-free, FMS on/off, call sequences of start/periodic/disable, run() periods with 0-6 iterations "
-                "ended by disable/teleop/endCompetition, 12%% ill-formed; non-trivial = built, >= 2 modes and >= 3 "
+                "ended by disable/teleop/endCompetition, in a third of them disable() called on the selector during "
+                "one of the passes (by the iter_fn hook or by another thread) with the loop going on, 12%% ill-formed; non-trivial = built, >= 2 modes and >= 3 "
                 "callbacks delivered" % len(EDGE_CASES),
         "corpus_cases": ncorpus,
         "samples": [{"fms": c["fms"], "modules": [(m["stem"], m["fail"], [(x["cname"], x["mode"]) for x in m["classes"]])
@@ -1255,7 +1308,8 @@ def replay(ctx, obj):
         print("harness error: %s" % o["harness_error"])
         return 1
     print("fms=%s layout=%s" % (case["fms"], json.dumps(case["pkg"])[:600]))
-    print("ops=%s" % (o["mops"],))
+    print("calls=%s" % (case["ops"],))
+    print("ops=%s   (run: [clock us, autonomous+enabled, disable() called during this pass] per loop pass)" % (o["mops"],))
     print("exception=%s constructor calls=%s" % (o["exc"], [c[1] for c in o["ctors"]]))
     print("modes=%s options=%s default=%r" % ([(k, i[1]) for k, i in o["modes"]], o["options"], o["default"]))
     print("callbacks=%s" % ([(k, i[1], t) for k, i, t in o["events"]],))
